@@ -9,10 +9,11 @@ Record case := mkcase { c_in : input; c_obs : obs }.
 
 (* compact notation for long byte strings in cases files (the harness has the same
    generator and checks its own encoding by decoding it again before emitting):
-   pat s n = n bytes of the sequence x0 = s mod 65537, x' = (75 x + 74) mod 65537, byte = x mod 256 *)
+   pat s n = n bytes of the sequence x0 = s mod 2^20, x' = (77 x + 75) mod 2^20, byte = bits 12..19 of x *)
 Definition pat (s n : N) : list N :=
-  rev (snd (N.iter n (fun st => let x := fst st in ((75 * x + 74) mod 65537, (x mod 256) :: snd st))
-                   (s mod 65537, []))).
+  rev' (snd (N.iter n (fun st => let x := fst st in
+                                (N.land (77 * x + 75) 1048575, N.land (N.shiftr x 12) 255 :: snd st))
+                   (N.land s 1048575, []))).
 (* first k elements *)
 Definition pre (k : N) (l : list N) : list N := firstn (N.to_nat k) l.
 
